@@ -336,6 +336,43 @@ def conds_sym(chk: Check, ctx: FuncCtx, node, kinds=("if", "prior"), with_kind=F
     return out
 
 
+def flows_from(ctx: FuncCtx, expr, at, targets, depth=6):
+    """Which of the call sites in `targets` (AST nodes) the value of `expr` (read at CFG node `at`) is computed from, following
+    local variables through their reaching definitions."""
+    out = set()
+    tset = {id(t): t for t in targets}
+    seen = set()
+
+    def go(e, node, d):
+        for x in ast.walk(e):
+            if id(x) in tset:
+                out.add(id(x))
+            if isinstance(x, ast.Name) and isinstance(x.ctx, ast.Load) and d > 0 and node is not None:
+                for df in ctx.cfg.rd_in.get(node, {}).get(x.id, ()):
+                    if df.value is not None and (id(df), d) not in seen:
+                        seen.add((id(df), d))
+                        go(df.value, df.node, d - 1)
+    go(expr, at, depth)
+    return [tset[i] for i in out]
+
+
+def atomic_facts(conds):
+    """A path condition as atomic (term, polarity) facts: conjunctions that hold and disjunctions that fail are split, `not` flips."""
+    out = []
+
+    def add(t, pol):
+        if t[0] == "not":
+            add(t[1], not pol)
+        elif t[0] == "bool" and ((t[1] == "and" and pol) or (t[1] == "or" and not pol)):
+            for x in t[2]:
+                add(x, pol)
+        else:
+            out.append((t, pol))
+    for t, pol in conds:
+        add(t, pol)
+    return out
+
+
 def eval_conds(conds, val) -> bool | None:
     """Evaluate a path condition under a valuation: True / False / None (evaluation failed)."""
     try:
@@ -501,7 +538,11 @@ def loop_carried(chk: Check, ctx: FuncCtx, loop):
     cfg = ctx.cfg
     hdr = cfg.node_of[loop]
     body = cfg.loop_nodes[loop]
+    memo = chk.memo.setdefault("carried", {})
+    if (id(ctx), id(loop)) in memo:
+        return memo[(id(ctx), id(loop))][0]
     out = {}
+    memo[(id(ctx), id(loop))] = (out, loop)
     for name, defs in cfg.rd_in[hdr].items():
         inside = [d for d in defs if d.node in body]
         outside = [d for d in defs if d.node not in body]
@@ -512,6 +553,147 @@ def loop_carried(chk: Check, ctx: FuncCtx, loop):
         for src in cfg.back_edge_sources(loop):
             nxt.append((src, chk.R._name(ctx, name, src, {}, True, 0)))
         out[name] = dict(phi=phi, next=nxt)
+    return out
+
+
+class Rounds(list):
+    """the rounds of a simulated loop; .final = the state after the last completed round"""
+    final = None
+
+
+class Round(tuple):
+    """(state before, visited nodes, exit, watched values) plus .val = the valuation of the round"""
+    val = None
+
+
+def appended_in_round(chk: Check, ctx: FuncCtx, rnd, method="append"):
+    """The values handed to `.append(..)` / `.add(..)` ... calls on the nodes a simulated round went through, in order."""
+    out = []
+    for node in rnd[1]:
+        a = node.ast
+        if isinstance(a, ast.Expr) and isinstance(a.value, ast.Call) and isinstance(a.value.func, ast.Attribute) and a.value.func.attr == method and a.value.args:
+            try:
+                out.append((a.value, S.ev(rx(chk, ctx, a.value.args[0], node), rnd.val)))
+            except S.EvalError:
+                out.append((a.value, None))
+    return out
+
+
+def simulate_loop(chk: Check, ctx: FuncCtx, loop, carried, inputs, fields=None, base=None, watch=(), call_models=None):
+    """The loop as a transition system evaluated round by round: the state is the values of the loop-carried variables (from
+    their entry terms), every round walks the body's CFG under the state plus that round's `inputs` override and, on a back
+    edge, evaluates the variables' back-edge terms to get the next state.  No repository code runs: only reconstructed terms
+    are evaluated.  -> [(state before, visited nodes, exit, {watched name: value at the exit})]"""
+    cfg = ctx.cfg
+    hdr = cfg.node_of[loop]
+    within = cfg.loop_nodes[loop] | {hdr}
+    if isinstance(loop, ast.For):
+        start = [s for s, lab in hdr.succ if lab == "T"][0]
+    else:
+        start = hdr
+    state = {}
+    for name, inf in carried.items():
+        phi = inf["phi"]
+        if phi[0] == "phi":
+            v0 = S.Valuation(1, override=base, fields=fields)
+            v0.call_models = call_models
+            try:
+                state[name] = S.ev(phi[3], v0)
+            except S.EvalError:
+                state[name] = None
+    rounds = Rounds()
+    rounds.final = dict(state)
+    for inp in inputs:
+        ov = dict(base or {})
+        ov.update(inp)
+        for name, v in state.items():
+            ov[carried[name]["phi"]] = v
+        val = S.Valuation(1, override=ov, fields=fields)
+        val.call_models = call_models
+        visited, ex = walk_cfg(chk, ctx, start, val, within=within)
+        at = {}
+        srcs = [src for src, _ in next(iter(carried.values()))["next"]] if carried else []
+        back = ex[0] in ("back", "left", "continue") and not (ex[0] == "left" and ex[1] is not hdr)
+        src = None
+        if back:
+            hit = [x for x in srcs if x in visited]
+            src = hit[-1] if hit else None
+        for name in watch:
+            try:
+                if back and src is not None:
+                    at[name] = S.ev(dict(carried[name]["next"])[src], val)
+                elif visited:
+                    at[name] = S.ev(rn(chk, ctx, name, visited[-1], False), val)
+            except S.EvalError:
+                at[name] = None
+        rnd = Round((dict(state), visited, ex, at))
+        rnd.val = val
+        rounds.append(rnd)
+        if not back or src is None:
+            break
+        new = {}
+        for name in state:
+            try:
+                new[name] = S.ev(dict(carried[name]["next"])[src], val)
+            except S.EvalError:
+                new[name] = None
+        state = new
+        rounds.final = dict(state)
+    return rounds
+
+
+def simulate_generator(chk: Check, ctx: FuncCtx, loop, base=None, fields=None, call_models=None, max_rounds=64):
+    """The values a single-loop generator yields for one model input: rounds of `simulate_loop` plus the statements behind the
+    loop (evaluated with the final state).  -> list of values | None (not decidable by evaluation) | ("raise",)"""
+    carried = loop_carried(chk, ctx, loop)
+    rounds = simulate_loop(chk, ctx, loop, carried, [{}] * max_rounds, fields=fields, base=base, call_models=call_models)
+    if not rounds:
+        return None
+    out = []
+
+    def collect(nodes, val):
+        for node in nodes:
+            a = node.ast
+            if node.kind != "stmt" or not isinstance(a, ast.AST):
+                continue
+            for y in ast.walk(a):
+                if isinstance(y, ast.Yield):
+                    out.append(S.ev(rx(chk, ctx, y.value, node), val) if y.value is not None else None)
+
+    try:
+        for r in rounds:
+            if r[2][0] in ("fork", "limit"):
+                return None
+            collect(r[1], r.val)
+        last = rounds[-1]
+        kind = last[2][0]
+        if kind == "raise":
+            return ("raise",)
+        if kind == "return" or kind == "exit":
+            return out
+        if kind != "left" or last[2][1] is ctx.cfg.node_of[loop]:
+            return None
+        # behind the loop a carried variable reads as the join of its definitions: that join has the final state's value
+        within = ctx.cfg.loop_nodes[loop] | {ctx.cfg.node_of[loop]}
+        ov = dict(last.val.override)
+        for node in ctx.cfg.nodes:
+            if node in within or not isinstance(getattr(node, "ast", None), ast.AST):
+                continue
+            for name in carried:
+                if name in rounds.final:
+                    tt = rn(chk, ctx, name, node, False)
+                    if not S.is_const(tt) and tt not in ov:
+                        ov[tt] = rounds.final[name]
+        val = S.Valuation(1, override=ov, fields=fields)
+        val.call_models = call_models
+        visited, ex = walk_cfg(chk, ctx, last[2][1], val)
+        if ex[0] in ("fork", "limit"):
+            return None
+        collect(visited, val)
+        if ex[0] == "raise":
+            return ("raise",)
+    except S.EvalError:
+        return None
     return out
 
 
@@ -1000,6 +1182,23 @@ def select_branch(t, val):
 # CFG walk under a valuation of terms (predicate abstraction: tests are evaluated on the checker's terms)
 
 
+def rx(chk: Check, ctx: FuncCtx, expr, node):
+    """Memoised chk.R.expr(ctx, expr, node) (no binds): simulations evaluate the same terms under many valuations."""
+    cache = chk.memo.setdefault("rx", {})
+    key = (id(ctx), id(expr), id(node))
+    if key not in cache:
+        cache[key] = (chk.R.expr(ctx, expr, node), expr)
+    return cache[key][0]
+
+
+def rn(chk: Check, ctx: FuncCtx, name, node, after):
+    cache = chk.memo.setdefault("rn", {})
+    key = (id(ctx), name, id(node), after)
+    if key not in cache:
+        cache[key] = (chk.R._name(ctx, name, node, {}, after, 0), node)
+    return cache[key][0]
+
+
 def walk_cfg(chk: Check, ctx: FuncCtx, start, val, stop=None, limit=400, within=None):
     """Follow the CFG from `start` choosing test edges by evaluating the test term under `val`.
     Returns (visited nodes in order, exit) with exit in 'return' / 'raise' / 'break' / 'continue' / 'back' /
@@ -1031,7 +1230,7 @@ def walk_cfg(chk: Check, ctx: FuncCtx, start, val, stop=None, limit=400, within=
                 return seen, ("continue", node)
         succ = [(s, lab) for s, lab in node.succ if lab != "exc"]
         if node.kind == "test":
-            t = chk.R.expr(ctx, a.test, node)
+            t = rx(chk, ctx, a.test, node)
             try:
                 v = bool(S.ev(t, val))
             except S.EvalError:
